@@ -67,9 +67,11 @@ def base_shape(nd, variant=0):
 def fmt(l):
     return ",".join(str(x) for x in l) if l else "-"
 def shape_line(cid, entry, s):
-    return "%s %s pop=%d rows=%d rg=%s mx=%s nw=%d cl=%s od=%s kl=%s ks=%s sm=%s po=%s mono=%d" % (
+    # cp / kz: where the coordinate and knot VALUES lie (harness/C13_harness.cpp); the argument checks and the model look at lengths,
+    # order and sortedness only, so these are extra keys the model driver does not read
+    return "%s %s pop=%d rows=%d rg=%s mx=%s nw=%d cl=%s od=%s kl=%s ks=%s sm=%s po=%s mono=%d%s%s" % (
         cid, entry, s["pop"], s["rows"], fmt(s["rg"]), fmt(s["mx"]), s["nw"], fmt(s["cl"]), fmt(s["od"]), fmt(s["kl"]), fmt(s["ks"]),
-        fmt(s["sm"]), fmt(s["po"]), s["mono"])
+        fmt(s["sm"]), fmt(s["po"]), s["mono"], (" cp=" + fmt(s["cp"])) if s.get("cp") else "", (" kz=" + fmt(s["kz"])) if s.get("kz") else "")
 def shape_key(entry, s):
     return shape_line("", entry, s)
 
@@ -139,6 +141,28 @@ def mutations(nd):
                 s["kl"][d] = s["od"][d] + 2      # one spline
                 po(s, d, 0, 1)
         add("po>nsplines@%d" % d, lambda s, d=d: pns(s, d))
+    # values of a VALID call: every abscissa of one axis outside the knot range / on an end knot / equal, a single-abscissa axis,
+    # zero-width and clamped knot vectors (the basis of that axis has all-zero rows or one column)
+    def place(s, key, d, v):
+        n = len(s["rg"])
+        if d < n:
+            cur = list(s.get(key) or [0] * n) + [0] * n
+            cur = cur[:n]; cur[d] = v; s[key] = cur
+    def single(s, d, v):
+        if d < len(s["rg"]) and d < len(s["cl"]) and len(s["mx"]) == len(s["rg"]):
+            s["rg"][d] = 1; s["mx"][d] = 0; s["cl"][d] = 1
+            rows = 1
+            for m in s["mx"]:
+                rows *= m + 1
+            s["rows"] = rows; s["nw"] = rows
+            place(s, "cp", d, v)
+    for d in range(nd):
+        for v in (1, 2, 3, 4, 5, 6):
+            add("cp=%d@%d" % (v, d), lambda s, d=d, v=v: place(s, "cp", d, v))
+        for v in (1, 2):
+            add("kz=%d@%d" % (v, d), lambda s, d=d, v=v: place(s, "kz", d, v))
+        for v in (0, 1, 3):
+            add("one-abscissa,cp=%d@%d" % (v, d), lambda s, d=d, v=v: single(s, d, v))
     add("mono=0", lambda s: s.__setitem__("mono", 0))
     add("mono=nd-1", lambda s: s.__setitem__("mono", len(s["rg"]) - 1))
     add("mono=nd", lambda s: s.__setitem__("mono", len(s["rg"])))
@@ -653,7 +677,8 @@ def run(info, out):
         "rule": "argument shapes of fit: full 1-d cross product (order {0,1,2,3,40,4e9} x knot count {0,1,o..o+5} x penalty order 0..o+3 x smoothing zero/non-zero x "
                 "monodim {none,0,1} x coordinate length {r-1,r,r+1} x sorted/unsorted) + in 1..3 dims every single and every ordered pair of ~%d argument mutations "
                 "(counts off by one/empty, index >= range, short coordinates, unsorted/too few knots, order 0/40/huge, penalty order o..o+3/huge, unused penalty order, "
-                "penalty order > #splines, monodim in/out, rows 0/1, dimension 0, populated target) on 3 valid base fits; C++ entry for all, C entry where the implied lengths hold, "
+                "penalty order > #splines, monodim in/out, rows 0/1, dimension 0, populated target; and VALUES of otherwise valid calls: all abscissae of an axis above / below the knot range, "
+                "on its first / last knot, equal, one abscissa only, zero-width and clamped knot vectors) on 3 valid base fits; C++ entry for all, C entry where the implied lengths hold, "
                 "null-pointer C calls; non-trivial = not one of the valid base shapes; distinct by the canonical shape line. quick = all singles + stratified sample, thorough = whole lattice" % len(mutations(3)),
         "samples": samples,
         "traces_validated_against_impl": len([c for c in cases_all if c["id"] in res or c["id"] in crashes]),
